@@ -23,11 +23,11 @@ pub fn def() -> CheckDef {
             "colour validity is computed by the harness from the regulation flags and cross-checked against the graph's unit set (mismatch => inconclusive)",
             "networks have <= 5 variables and <= 2^10 colours (all enumerated); formulae have <= 3 nested state variables",
         ],
-        cases: |t| if t == Tier::Quick { 2500 } else { 150_000 },
+        cases: |t| if t == Tier::Quick { 20_000 } else { 400_000 },
         needs: |t| {
             let m = if t == Tier::Quick { 1 } else { 20 };
             vec![
-                ("distinct_nontrivial", 300 * m),
+                ("distinct_nontrivial", 3000 * m),
                 ("op_EX", 20 * m),
                 ("op_AX", 20 * m),
                 ("op_EF", 20 * m),
